@@ -1,6 +1,7 @@
 import Xsm.Proofs.Trace
+import Xsm.Proofs.Pure
 /-!
-# C05 — sync and async engines compute the same behaviour
+# C05 — sync, async and pure engines compute the same behaviour
 
 What is proved here (about the model; the tie to the code is the correspondence check, and the
 cross-engine monitor compares the two real engines directly at every drained point):
@@ -16,8 +17,11 @@ cross-engine monitor compares the two real engines directly at every drained poi
 
 Not proved: agreement of whole runs (drain discipline `drainLoop` vs `asyncDrain`) — the two engines
 bound different things once `maxIterations` is reached (C13), so whole-run agreement only holds for
-cut-free runs; it is validated by the monitor. The pure API (`initial_transition`/`transition`) is
-not modelled yet.
+cut-free runs; it is validated by the monitor.
+
+The pure API (`initial_transition` / `transition`, with the repairs of findings F4, F5, F32) is modelled in
+`Xsm/Model/Pure.lean` FROM the sync engine's own definitions (the probe is a `SyncInterpreter` subclass):
+see the last section of this file, "the pure functions".
 -/
 namespace XSM.C05
 open XSM
@@ -85,5 +89,239 @@ theorem hooks_differ_only_in_sends (u : UEnv) (m : Machine) :
     (hooksFlagged u m).act = (hooksAsync u m).act ∧ (hooksFlagged u m).geval = (hooksAsync u m).geval ∧
     (hooksFlagged u m).act = (hooksAsyncStart u m).act ∧ (hooksFlagged u m).geval = (hooksAsyncStart u m).geval :=
   ⟨rfl, rfl, rfl, rfl⟩
+
+/-! ## The pure functions (`initial_transition`, `transition`; `Xsm/Model/Pure.lean`)
+
+The probe is the sync engine over `pureEnv u` (user actions recorded, never called; `assign` / `raise` /
+`choose` interpreted by the engine's own built-in path; nothing scheduled). `pureInitial m u` is
+`probe.start()`, `pureTransition m u snap ev` is `probe.send(ev)` from the probe restored from `snap`,
+`pureChain` chains the calls as a caller does. A call returns `.ok (snapshot, reported action names)` or
+`.error e` (the exception it raises). What is proved, for every machine, user environment and event list:
+
+* `pure_runs_no_user_code`, `pure_act_outcomes_ignored` — what an action DOES never matters;
+* `pure_agrees_with_sync`, `pure_agrees_with_sync_stepwise` — the formal counterpart of the monitor
+  `c05_pure`: under the API's premise `ActsQuiet u` the chained pure calls return, call by call, exactly
+  what the sync engine's `start()` / `send()` produce (configuration, status, context, remembered history,
+  reported = executed user actions in order) up to and including the first call that raises — bound cuts
+  included, because the probe IS the engine and cuts the same chains;
+* `pure_done_is_terminal` (F5 repaired), `pure_snapshot_roundtrip` (F4 repaired: the history travels).
+
+`pure_inputs_untouched` (the machine definition and the snapshot handed in are not modified) holds by
+construction in a functional model — `pureTransition` returns new values and has nothing to mutate — so no
+theorem is stated for it; on the implementation it is checked by fingerprints (`multichecks.c05_pure`).
+
+Only validated (tie `harness/xsmverif/c05pure.py`, `driver_pure`): that the model is the code; the built-in
+entries of the reported list (the engine model logs user actions only); non-integer context values, `output`,
+event payloads, delays, and the built-ins whose only effect is outside the engine model. -/
+
+open XSM.Pure XSM.Snap
+
+/-- **the pure functions run no user code (1): what an action does is never consulted.** Two user
+    environments with the same guards that REGISTER the same action names (whatever those actions do:
+    change the context, raise, be coroutines) give the same initial snapshot, the same result of every
+    `transition()` call and hence of every chain of calls. -/
+theorem pure_runs_no_user_code (m : Machine) (u1 u2 : UEnv) (hg : u1.g = u2.g) (hr : SameRegistered u1 u2) :
+    pureInitial m u1 = pureInitial m u2 ∧
+    (∀ p ev, pureTransition m u1 p ev = pureTransition m u2 p ev) ∧
+    (∀ p evs, pureChain m u1 p evs = pureChain m u2 p evs) := by
+  have h : pureEnv u1 = pureEnv u2 := pureEnv_congr hg hr
+  have ht : ∀ p ev, pureTransition m u1 p ev = pureTransition m u2 p ev := by
+    intro p ev; unfold pureTransition; rw [h]
+  refine ⟨by unfold pureInitial; rw [h], ht, ?_⟩
+  intro p evs
+  induction evs generalizing p with
+  | nil => rfl
+  | cons e es ih => simp only [pureChain, ht, ih]
+
+/-- **… (2), at the level of the hooks:** the only answers the probe's action hook ever gives are
+    "recorded, context exactly as it was" and "not a user action" (then the name is an unregistered
+    built-in and the engine's built-in path runs); it never fails, never is a coroutine, never returns
+    another context. Its sends only enqueue (`enqueue`: nothing is delivered anywhere else). -/
+theorem pure_act_outcomes_ignored (u : UEnv) (m : Machine) (n : String) (c : Ctx) (e : String) :
+    ((pureHooks u m).act n c e = .ok c ∨
+      ((pureHooks u m).act n c e = .missing ∧ u.a n c e = .missing ∧ (canonicalBuiltin n).isSome = true)) ∧
+    (pureHooks u m).snd = enqueue ∧ (pureHooks u m).sndRaise = enqueue :=
+  ⟨pureAct_cases u n c e, rfl, rfl⟩
+
+/-- **the pure functions agree with the sync engine** (the formal counterpart of the monitor). For a user
+    environment in which context changes only through `assign` (`ActsQuiet`: every action is a registered
+    function that returns normally and leaves the context alone, or a built-in the user did not override):
+    `initial_transition` returns what `start()` produces, and — when `start()` does not raise — the chain
+    of `transition()` calls over ANY event list returns, call by call, what `send()` produces from the
+    engine's own previous state (`syncChain`: `cmdO .sync`, observed through `capture` / `reported`):
+    same configuration, status, context and remembered history, the reported list equal to the executed
+    user actions in order, and the same exception at the first call that raises (where both chains end).
+    Covered: every run up to and including the first raising call; `maxIterations` cuts included. -/
+theorem pure_agrees_with_sync (m : Machine) (u : UEnv) (hu : ActsQuiet u) (evs : List Ev) :
+    pureInitial m u = observe (syncStart m u {}) ∧
+    ((syncStart m u {}).err = none →
+      pureChain m u (capture (syncStart m u {})) evs = syncChain m u (syncStart m u {}) evs) := by
+  refine ⟨by unfold pureInitial; rw [pureEnv_of_quiet hu], fun he => ?_⟩
+  exact pureChain_eq_syncChain m u hu evs _ (syncStart_quiescent m u he)
+
+/-- the same, spelled out for runs in which no call raises: the pure API's k-th result is
+    `.ok (capture sₖ, reported sₖ)` where `sₖ` is the sync engine's state after the k-th `send` -/
+theorem pure_agrees_with_sync_stepwise (m : Machine) (u : UEnv) (hu : ActsQuiet u) (evs : List Ev)
+    (h0 : (syncStart m u {}).err = none)
+    (hok : ∀ x ∈ syncStates m u (syncStart m u {}) evs, x.err = none) :
+    pureInitial m u = .ok (capture (syncStart m u {}), reported (syncStart m u {})) ∧
+    pureChain m u (capture (syncStart m u {})) evs =
+      (syncStates m u (syncStart m u {}) evs).map (fun x => .ok (capture x, reported x)) := by
+  obtain ⟨h1, h2⟩ := pure_agrees_with_sync m u hu evs
+  exact ⟨by rw [h1, observe_of_ok h0], by rw [h2 h0, syncChain_of_ok m u evs _ hok]⟩
+
+/-- every state the sync engine is in between two calls (none of which raised) is `Quiescent`: nothing
+    queued, status running or done, remembered lists in recorded order — what `capture` loses nothing of -/
+theorem sync_states_quiescent (m : Machine) (u : UEnv) (h0 : (syncStart m u {}).err = none) :
+    Quiescent m (syncStart m u {}) ∧
+    ∀ (s : St) (e : Ev), Quiescent m s → (cmdO .sync m u s e).err = none → Quiescent m (cmdO .sync m u s e) :=
+  ⟨syncStart_quiescent m u h0, fun s e hq he => syncSend_quiescent m u e _ hq.obsReset he⟩
+
+/-- **a finished snapshot is terminal (F5 repaired):** `transition()` on a snapshot whose status is not
+    "active" returns it unchanged, reports no actions and raises nothing — whatever the event, the
+    machine and the user code; so does any chain of calls. -/
+theorem pure_done_is_terminal (m : Machine) (u : UEnv) (p : PureSnap) (h : p.status ≠ "active") :
+    (∀ ev, pureTransition m u p ev = .ok (p, [])) ∧
+    (∀ evs, pureChain m u p evs = evs.map (fun _ => .ok (p, []))) := by
+  have ht : ∀ ev, pureTransition m u p ev = .ok (p, []) := by
+    intro ev; unfold pureTransition; rw [if_neg h]
+  refine ⟨ht, fun evs => ?_⟩
+  induction evs with
+  | nil => rfl
+  | cons e es ih => simp only [pureChain, ht, ih, List.map_cons]
+
+/-- **capture ∘ restore and restore ∘ capture (F4 repaired: the history travels with the snapshot).**
+    Restoring an active snapshot whose remembered lists are in recorded order and capturing again gives
+    the snapshot back — configuration, context, status and history; and restoring what was captured from
+    a running quiescent engine state gives that state back (with the observation of the previous call
+    cleared), so nothing the next call depends on is lost. `DISorted` holds for every snapshot the API
+    returns (`recorded_lists_sorted`, C12: `_record_history` only ever stores such lists). -/
+theorem pure_snapshot_roundtrip (m : Machine) :
+    (∀ p : PureSnap, p.status = "active" → DISorted m p.hist → capture (restorePure m p) = p) ∧
+    (∀ s : St, Quiescent m s → s.status = "running" → restorePure m (capture s) = obsReset s) :=
+  ⟨capture_restore m, restore_capture m⟩
+
+/-! ### Non-vacuity: a machine with a `raise`, a `choose` (with an `assign`) and a history state
+
+```
+m (initial A, context n = 0)
+├─ A (initial a1)   on OUT → #m.o          entry en:A
+│  ├─ a1            on N → a2              entry en:a1
+│  ├─ a2                                   entry en:a2
+│  └─ h (history, shallow)
+├─ o                on BACK → #m.A.h       entry en:o
+│                   on GO: actions tr, choose[ g → yes, assign n := 1, raise NEXT | else → no ], after
+│                   on NEXT → #m.f
+└─ f (final)                               entry en:f
+```
+-/
+namespace PureEx
+def mkT (tid : Nat) (event : String) (target : Option String) (actions : List ActionRef := []) : Trans :=
+  { tid, event, target, guard := none, actions, reenter := false, forbidden := false }
+def mkD (kind : Kind) (initial : Option String := none) (on : List (String × List Trans) := [])
+    (entry : List ActionRef := []) : StateDef :=
+  { kind, initial, entry, exit := [], on, onDone := none, after := [], invoke := [], deep := false,
+    historyTarget := none, customId := none, tags := [] }
+def chooseP : J := .obj [("conditions", .arr [
+  .obj [("guard", .str "g"), ("actions", .arr [.str "yes",
+      .obj [("type", .str "assign"), ("params", .obj [("assignment", .obj [("n", .num 1)])])],
+      .obj [("type", .str "xstate.raise"), ("params", .obj [("event", .str "NEXT")])]])],
+  .obj [("actions", .arr [.str "no"])]])]
+def pM : Machine :=
+  { id := "m", maxIterations := 10, customIds := [], ctx0 := [("n", 0)],
+    root := .mk (mkD .compound (some "A")) [
+      ("A", .mk (mkD .compound (some "a1") [("OUT", [mkT 0 "OUT" (some "#m.o")])] [⟨"en:A", none⟩]) [
+        ("a1", .mk (mkD .atomic none [("N", [mkT 1 "N" (some "a2")])] [⟨"en:a1", none⟩]) []),
+        ("a2", .mk (mkD .atomic none [] [⟨"en:a2", none⟩]) []),
+        ("h", .mk (mkD .history) [])]),
+      ("o", .mk (mkD .atomic none [("BACK", [mkT 2 "BACK" (some "#m.A.h")]),
+                                   ("GO", [mkT 3 "GO" none [⟨"tr", none⟩, ⟨"choose", some chooseP⟩, ⟨"after", none⟩]]),
+                                   ("NEXT", [mkT 4 "NEXT" (some "#m.f")])] [⟨"en:o", none⟩]) []),
+      ("f", .mk (mkD .final none [] [⟨"en:f", none⟩]) [])] }
+/-- user code within the API's premise: the guard `g` holds; every non-built-in name is a marker action -/
+def pU : UEnv :=
+  { g := fun n _ _ => if n = "g" then .t else .missing,
+    a := fun n c _ => if (canonicalBuiltin n).isSome then .missing else .ok c }
+/-- user code OUTSIDE the premise: `en:o` raises, `tr` rewrites the context, `yes` is a coroutine -/
+def pUwild : UEnv :=
+  { g := pU.g,
+    a := fun n c _ => if (canonicalBuiltin n).isSome then .missing
+      else if n = "en:o" then .raises else if n = "tr" then .ok (ctxSet c "n" 7)
+      else if n = "yes" then .isAsync c else .ok c }
+def pEvs : List Ev := [.user "N", .user "OUT", .user "BACK", .user "OUT", .user "GO", .user "X"]
+def snapOf (cfg : List Path) (n : Int) (status : String) (hist : List (Path × List Path)) : PureSnap :=
+  { cfg, ctx := [("n", n)], status, hist }
+/-- a call's result when it did not raise (`Except` has no decidable equality of its own) -/
+def okOf {α} : Except EErr α → Option α
+  | .ok r => some r
+  | .error _ => none
+end PureEx
+open PureEx
+
+theorem pU_quiet : ActsQuiet pU := by
+  intro n c e
+  by_cases h : (canonicalBuiltin n).isSome = true
+  · right; exact ⟨by simp only [pU, h, if_true], h⟩
+  · left; simp only [pU, h]; rfl
+
+/-- `initial_transition`: the initial configuration and the entry actions, nothing remembered yet -/
+example : okOf (pureInitial pM pU) = some (snapOf [[], ["A"], ["A", "a1"]] 0 "active" [], ["en:A", "en:a1"]) := by decide
+
+/-- the chain `N, OUT, BACK, OUT, GO, X`. `BACK` (third call) re-enters `a2`: the history recorded by the
+    SECOND call travelled in the snapshot (F4). `GO` (fifth call): `choose` is expanded (`yes`, not `no`),
+    `assign` sets `n`, the raised `NEXT` is processed within the same call and completes the machine
+    (`en:f`, status "done") (F32). `X` (sixth call) is ignored by the finished snapshot (F5). -/
+example : (pureChain pM pU (snapOf [[], ["A"], ["A", "a1"]] 0 "active" []) pEvs).map okOf =
+    [some (snapOf [[], ["A"], ["A", "a2"]] 0 "active" [(["A"], [["A", "a1"]])], ["en:a2"]),
+     some (snapOf [[], ["o"]] 0 "active" [(["A"], [["A", "a2"]])], ["en:o"]),
+     some (snapOf [[], ["A"], ["A", "a2"]] 0 "active" [(["A"], [["A", "a2"]])], ["en:A", "en:a2"]),
+     some (snapOf [[], ["o"]] 0 "active" [(["A"], [["A", "a2"]])], ["en:o"]),
+     some (snapOf [[], ["f"]] 1 "done" [(["A"], [["A", "a2"]])], ["tr", "yes", "after", "en:f"]),
+     some (snapOf [[], ["f"]] 1 "done" [(["A"], [["A", "a2"]])], [])] := by decide +kernel
+
+/-- the hypotheses of `pure_agrees_with_sync_stepwise` hold on this run (no call of the sync engine raises),
+    and its conclusion, evaluated: the sync engine goes through the same six observations -/
+example : (syncStart pM pU {}).err = none ∧ ∀ x ∈ syncStates pM pU (syncStart pM pU {}) pEvs, x.err = none := by
+  decide +kernel
+example : (syncStates pM pU (syncStart pM pU {}) pEvs).map (fun x => ((capture x).cfg, (capture x).status, reported x)) =
+    [([[], ["A"], ["A", "a2"]], "active", ["en:a2"]), ([[], ["o"]], "active", ["en:o"]),
+     ([[], ["A"], ["A", "a2"]], "active", ["en:A", "en:a2"]), ([[], ["o"]], "active", ["en:o"]),
+     ([[], ["f"]], "done", ["tr", "yes", "after", "en:f"]), ([[], ["f"]], "done", [])] := by decide +kernel
+
+/-- `pure_runs_no_user_code`, instantiated: user code that raises, rewrites the context or is a coroutine
+    registers the same names as the marker actions, so the pure results are the same … -/
+example : SameRegistered pU pUwild := by
+  intro n c e
+  by_cases h : (canonicalBuiltin n).isSome = true
+  · simp only [pU, pUwild, h, if_true]
+  · simp only [pU, pUwild, h]
+    constructor
+    · intro hh; cases hh
+    · intro hh
+      by_cases h1 : n = "en:o"
+      · simp only [h1, if_true] at hh; cases hh
+      · by_cases h2 : n = "tr"
+        · simp only [h1, h2, if_true, if_false] at hh; cases hh
+        · by_cases h3 : n = "yes"
+          · simp only [h1, h2, h3, if_true, if_false] at hh; cases hh
+          · simp only [h1, h2, h3, if_false] at hh; cases hh
+example : (pureChain pM pUwild (snapOf [[], ["A"], ["A", "a1"]] 0 "active" []) pEvs).map okOf =
+    (pureChain pM pU (snapOf [[], ["A"], ["A", "a1"]] 0 "active" []) pEvs).map okOf := by decide +kernel
+/-- … while the REAL engine, which does run that code, ends elsewhere (the premise `ActsQuiet` of
+    `pure_agrees_with_sync` is necessary: here the context differs after `GO`, and `yes` being a coroutine
+    makes the sync engine raise) -/
+example : ((syncStates pM pUwild (syncStart pM pUwild {}) pEvs).map (fun x => (x.ctx, x.err.isSome))) ≠
+    ((syncStates pM pU (syncStart pM pU {}) pEvs).map (fun x => (x.ctx, x.err.isSome))) := by decide +kernel
+
+/-- `pure_done_is_terminal` and `pure_snapshot_roundtrip` on the witness: the snapshot after `GO` is not
+    active; the snapshot after `OUT` is active with a sorted history and survives restore + capture -/
+example : (snapOf [[], ["f"]] 1 "done" [(["A"], [["A", "a2"]])]).status ≠ "active" := by decide
+example : capture (restorePure pM (snapOf [[], ["o"]] 0 "active" [(["A"], [["A", "a2"]])])) =
+    snapOf [[], ["o"]] 0 "active" [(["A"], [["A", "a2"]])] := by decide
+example : DISorted pM [(["A"], [["A", "a2"]])] := by
+  intro kv hkv
+  simp only [List.mem_singleton] at hkv
+  subst hkv
+  exact List.pairwise_singleton _ _
 
 end XSM.C05
